@@ -45,8 +45,9 @@ Section Conf.
     inv_locks : forall i l, c_locks c l = Some i -> In l (a_held (A c i));
     inv_prot : forall i g, W g = true -> In g (a_fresh (A c i)) -> may_access disc i (A c i) g = true;
     inv_fresh : forall i g, W g = true -> In g (a_fresh (A c i)) -> c_store c g = v_store (V c i) g;
+    inv_owned : forall i g, W g = true -> owned_by disc i g = true -> c_store c g = v_store (V c i) g;
     inv_obs : forall i, wobs W (t_obs (c_thr c i)) = wobs W (v_obs (V c i));
-    inv_ok : forall i, ok_from disc W i (A c i) (t_todo (c_thr c i)) = true
+    inv_ok : forall i, ok_from_res disc W i (A c i) (t_todo (c_thr c i)) = true
   }.
 
   Hypothesis Hwrites : forall i, Forall (write_ok W) (progs i).
@@ -95,7 +96,7 @@ Section Conf.
 
   Lemma ok_after c st lk t s rest o :
     inv c -> t_todo (c_thr c t) = s :: rest ->
-    forall i, ok_from disc W i (A (mkConfig st lk (thr_upd c t s rest o)) i) (t_todo (c_thr (mkConfig st lk (thr_upd c t s rest o)) i)) = true.
+    forall i, ok_from_res disc W i (A (mkConfig st lk (thr_upd c t s rest o)) i) (t_todo (c_thr (mkConfig st lk (thr_upd c t s rest o)) i)) = true.
   Proof.
     intros I E i. destruct (Nat.eq_dec i t) as [->|Hi].
     - rewrite A_self. simpl. rewrite thr_self. simpl.
@@ -118,7 +119,7 @@ Section Conf.
       assert (Hacc : W g = true -> may_access disc t (A c t) g = true).
       { intros Wg. rewrite Wg in Hhd. exact Hhd. }
       fold (thr_upd c t (Write g f) rest (t_obs (c_thr c t))).
-      constructor; [apply split_after; assumption | | | | | | apply ok_after; assumption]; intros i.
+      constructor; [apply split_after; assumption | | | | | | | apply ok_after; assumption]; intros i.
       + intros l0 Hl. simpl. destruct (Nat.eq_dec i t) as [->|Hi]; [rewrite A_self in Hl | rewrite A_other in Hl by exact Hi];
           apply (inv_held c I); exact Hl.
       + intros l0 Hl. simpl in Hl. destruct (Nat.eq_dec i t) as [->|Hi]; [rewrite A_self | rewrite A_other by exact Hi];
@@ -137,15 +138,27 @@ Section Conf.
           assert (g0 <> g).
           { intros ->. apply (access_exclusive c i t g I Hi); [apply (inv_prot c I); assumption | apply Hacc; exact Wg]. }
           rewrite upd_other by assumption. apply (inv_fresh c I); assumption.
+      + intros g0 Wg Ho. simpl. destruct (Nat.eq_dec i t) as [->|Hi].
+        * rewrite V_self. simpl. unfold upd. destruct (Nat.eqb g0 g) eqn:E.
+          { apply Nat.eqb_eq in E. subst g0. simpl in Hwok. apply (Hwok Wg). apply (inv_obs c I). }
+          apply (inv_owned c I); assumption.
+        * rewrite V_other by exact Hi.
+          assert (g0 <> g).
+          { intros ->. pose proof (Hacc Wg) as Ht. unfold may_access in Ht. unfold owned_by in Ho.
+            destruct (disc g) as [j|l0]; [|discriminate]. apply Nat.eqb_eq in Ht, Ho. subst. apply Hi. reflexivity. }
+          rewrite upd_other by assumption. apply (inv_owned c I); assumption.
       + simpl. destruct (Nat.eq_dec i t) as [->|Hi].
         * rewrite V_self, thr_self. simpl. apply (inv_obs c I).
         * rewrite V_other, thr_other by exact Hi. apply (inv_obs c I).
     - (* Read *)
       inversion Hs; subst c'; clear Hs.
-      assert (Hfr : W g = true -> In g (a_fresh (A c t))).
-      { intros Wg. rewrite Wg in Hhd. simpl in Hhd. apply andb_true_iff in Hhd. apply mem_In. exact (proj2 Hhd). }
+      assert (Hfr : W g = true -> c_store c g = v_store (V c t) g).
+      { intros Wg. rewrite Wg in Hhd. simpl in Hhd. apply andb_true_iff in Hhd. destruct Hhd as [_ Hh2].
+        apply orb_true_iff in Hh2. destruct Hh2 as [Hm|Ho].
+        - apply (inv_fresh c I); [exact Wg | apply mem_In; exact Hm].
+        - apply (inv_owned c I); assumption. }
       fold (thr_upd c t (Read g) rest ((g, c_store c g) :: t_obs (c_thr c t))).
-      constructor; [apply split_after; assumption | | | | | | apply ok_after; assumption]; intros i.
+      constructor; [apply split_after; assumption | | | | | | | apply ok_after; assumption]; intros i.
       + intros l0 Hl. simpl. destruct (Nat.eq_dec i t) as [->|Hi]; [rewrite A_self in Hl | rewrite A_other in Hl by exact Hi];
           apply (inv_held c I); exact Hl.
       + intros l0 Hl. simpl in Hl. destruct (Nat.eq_dec i t) as [->|Hi]; [rewrite A_self | rewrite A_other by exact Hi];
@@ -155,15 +168,18 @@ Section Conf.
       + intros g0 Wg Hg. simpl. destruct (Nat.eq_dec i t) as [->|Hi].
         * rewrite A_self in Hg. rewrite V_self. simpl. apply (inv_fresh c I); assumption.
         * rewrite A_other in Hg by exact Hi. rewrite V_other by exact Hi. apply (inv_fresh c I); assumption.
+      + intros g0 Wg Ho. simpl. destruct (Nat.eq_dec i t) as [->|Hi].
+        * rewrite V_self. simpl. apply (inv_owned c I); assumption.
+        * rewrite V_other by exact Hi. apply (inv_owned c I); assumption.
       + simpl. destruct (Nat.eq_dec i t) as [->|Hi].
         * rewrite V_self, thr_self. simpl. unfold wobs. simpl. destruct (W g) eqn:Wg.
-          -- rewrite (inv_fresh c I t g Wg (Hfr eq_refl)). f_equal. apply (inv_obs c I).
+          -- rewrite (Hfr eq_refl). f_equal. apply (inv_obs c I).
           -- apply (inv_obs c I).
         * rewrite V_other, thr_other by exact Hi. apply (inv_obs c I).
     - (* Local *)
       inversion Hs; subst c'; clear Hs.
       fold (thr_upd c t Local rest (t_obs (c_thr c t))).
-      constructor; [apply split_after; assumption | | | | | | apply ok_after; assumption]; intros i.
+      constructor; [apply split_after; assumption | | | | | | | apply ok_after; assumption]; intros i.
       + intros l0 Hl. simpl. destruct (Nat.eq_dec i t) as [->|Hi]; [rewrite A_self in Hl | rewrite A_other in Hl by exact Hi];
           apply (inv_held c I); exact Hl.
       + intros l0 Hl. simpl in Hl. destruct (Nat.eq_dec i t) as [->|Hi]; [rewrite A_self | rewrite A_other by exact Hi];
@@ -173,6 +189,9 @@ Section Conf.
       + intros g0 Wg Hg. simpl. destruct (Nat.eq_dec i t) as [->|Hi].
         * rewrite A_self in Hg. rewrite V_self. simpl. apply (inv_fresh c I); assumption.
         * rewrite A_other in Hg by exact Hi. rewrite V_other by exact Hi. apply (inv_fresh c I); assumption.
+      + intros g0 Wg Ho. simpl. destruct (Nat.eq_dec i t) as [->|Hi].
+        * rewrite V_self. simpl. apply (inv_owned c I); assumption.
+        * rewrite V_other by exact Hi. apply (inv_owned c I); assumption.
       + simpl. destruct (Nat.eq_dec i t) as [->|Hi].
         * rewrite V_self, thr_self. simpl. apply (inv_obs c I).
         * rewrite V_other, thr_other by exact Hi. apply (inv_obs c I).
@@ -180,7 +199,7 @@ Section Conf.
       destruct (c_locks c l) eqn:Elock; [discriminate|].
       inversion Hs; subst c'; clear Hs.
       fold (thr_upd c t (Acq l) rest (t_obs (c_thr c t))).
-      constructor; [apply split_after; assumption | | | | | | apply ok_after; assumption]; intros i.
+      constructor; [apply split_after; assumption | | | | | | | apply ok_after; assumption]; intros i.
       + intros l0 Hl. simpl. destruct (Nat.eq_dec i t) as [->|Hi].
         * rewrite A_self in Hl. simpl in Hl. destruct Hl as [<-|Hl]; [apply upd_same|].
           destruct (Nat.eq_dec l0 l) as [->|Hl0]; [apply upd_same | rewrite upd_other by exact Hl0; apply (inv_held c I); exact Hl].
@@ -197,6 +216,9 @@ Section Conf.
       + intros g0 Wg Hg. simpl. destruct (Nat.eq_dec i t) as [->|Hi].
         * rewrite A_self in Hg. simpl in Hg. rewrite V_self. simpl. apply (inv_fresh c I); assumption.
         * rewrite A_other in Hg by exact Hi. rewrite V_other by exact Hi. apply (inv_fresh c I); assumption.
+      + intros g0 Wg Ho. simpl. destruct (Nat.eq_dec i t) as [->|Hi].
+        * rewrite V_self. simpl. apply (inv_owned c I); assumption.
+        * rewrite V_other by exact Hi. apply (inv_owned c I); assumption.
       + simpl. destruct (Nat.eq_dec i t) as [->|Hi].
         * rewrite V_self, thr_self. simpl. apply (inv_obs c I).
         * rewrite V_other, thr_other by exact Hi. apply (inv_obs c I).
@@ -204,7 +226,7 @@ Section Conf.
       inversion Hs; subst c'; clear Hs. apply mem_In in Hhd.
       pose proof (inv_held c I t l Hhd) as Hlt.
       fold (thr_upd c t (Rel l) rest (t_obs (c_thr c t))).
-      constructor; [apply split_after; assumption | | | | | | apply ok_after; assumption]; intros i.
+      constructor; [apply split_after; assumption | | | | | | | apply ok_after; assumption]; intros i.
       + intros l0 Hl. simpl. destruct (Nat.eq_dec i t) as [->|Hi].
         * rewrite A_self in Hl. simpl in Hl. apply In_remove_nat in Hl. destruct Hl as [Hl Hne].
           rewrite upd_other by exact Hne. apply (inv_held c I). exact Hl.
@@ -225,6 +247,9 @@ Section Conf.
         * rewrite A_self in Hg. simpl in Hg. apply filter_In in Hg. destruct Hg as [Hg _].
           rewrite V_self. simpl. apply (inv_fresh c I); assumption.
         * rewrite A_other in Hg by exact Hi. rewrite V_other by exact Hi. apply (inv_fresh c I); assumption.
+      + intros g0 Wg Ho. simpl. destruct (Nat.eq_dec i t) as [->|Hi].
+        * rewrite V_self. simpl. apply (inv_owned c I); assumption.
+        * rewrite V_other by exact Hi. apply (inv_owned c I); assumption.
       + simpl. destruct (Nat.eq_dec i t) as [->|Hi].
         * rewrite V_self, thr_self. simpl. apply (inv_obs c I).
         * rewrite V_other, thr_other by exact Hi. apply (inv_obs c I).
@@ -236,7 +261,7 @@ Section Conf.
     destruct (step_thread i c) as [c'|] eqn:E; [apply IH; eapply step_preserves; eauto | apply IH; exact I].
   Qed.
 
-  Hypothesis Hconf : forall i, confined disc W i (progs i) = true.
+  Hypothesis Hconf : forall i, confined_res disc W i (progs i) = true.
 
   Lemma inv_init : inv (init st0 progs).
   Proof.
@@ -253,7 +278,7 @@ Section Conf.
     split; [apply (inv_obs c I) | apply (inv_split c I)].
   Qed.
 
-  (* ... hence a completed call has exactly its solo result *)
+  (* ... hence a completed call has exactly the result it has alone from the same initial state *)
   Theorem confined_serializable_st :
     forall sched i, let c := run sched (init st0 progs) in
     t_todo (c_thr c i) = [] -> wobs W (t_obs (c_thr c i)) = wobs W (solo_result st0 (progs i)).
@@ -262,6 +287,13 @@ Section Conf.
     rewrite Hdone, app_nil_r in Hs. rewrite Ho, Hs. reflexivity.
   Qed.
 End Conf.
+
+Lemma ok_from_res_of_ok disc W i : forall p a, ok_from disc W i a p = true -> ok_from_res disc W i a p = true.
+Proof.
+  induction p as [|s r IH]; intros a H; [reflexivity|]. simpl in *. apply andb_true_iff in H. destruct H as [Hh Hr].
+  rewrite (IH _ Hr), andb_true_r. destruct s; auto.
+  destruct (W g); simpl in *; [|reflexivity]. apply andb_true_iff in Hh. destruct Hh as [-> ->]. reflexivity.
+Qed.
 
 (* the solo result of a confined call does not depend on the store it starts from (nor, therefore, on what earlier calls
    left behind) *)
@@ -303,7 +335,7 @@ Theorem confined_serializable_W :
   wobs W (t_obs (c_thr (run sched (init st0 progs)) i)) = wobs W (solo_result zero_store (progs i)).
 Proof.
   intros disc W progs Hw Hc st0 sched i Hd.
-  rewrite (confined_serializable_st disc W progs st0 Hw Hc sched i Hd).
+  rewrite (confined_serializable_st disc W progs st0 Hw (fun j => ok_from_res_of_ok disc W j _ _ (Hc j)) sched i Hd).
   apply (solo_indep disc W i); [apply Hw | apply Hc].
 Qed.
 
@@ -473,25 +505,30 @@ Definition impl_ready (i : tid) (sreg sout : bool) (a : ast) : Prop :=
 Definition next_reg (t : tag) (b : bool) : bool := match t with TRegSet => true | _ => b end.
 Definition next_out (t : tag) (b : bool) : bool := match t with TDsOutSet | TDsOutClear => true | _ => b end.
 
+Lemma impl_cell i g : In g [GRegistry; GVcDs; GVcDc; GDsOut] ->
+  disc_spec (gmap_impl i g) = Owned i /\ W_reg (gmap_impl i g) = true /\ locked_by disc_spec PL (gmap_impl i g) = false.
+Proof.
+  intros H.
+  assert (E : gmap_impl i g = gmap_spec i g /\ 0 < g /\ g < 10).
+  { simpl in H. destruct H as [<-|[<-|[<-|[<-|[]]]]]; unfold GRegistry, GVcDs, GVcDc, GDsOut; (split; [reflexivity | lia]). }
+  destruct E as [E [H0 H1]].
+  assert (Eo : disc_spec (gmap_impl i g) = Owned i) by (rewrite E; apply disc_spec_tl; assumption).
+  split; [exact Eo|]. split.
+  - rewrite E. unfold W_reg. pose proof (gmap_spec_ge i g H0) as Hge. apply orb_true_iff. right. apply Nat.leb_le. exact Hge.
+  - unfold locked_by. rewrite Eo. reflexivity.
+Qed.
+
 Lemma impl_tag_ok i tok a sreg sout t :
   impl_ready i sreg sout a ->
   (match t with TRegGet => sreg = true | TRaise => sout = true | _ => True end) ->
-  ok_from disc_spec W_reg i a (steps_of_tag (gmap_impl i) tok t) = true /\
+  ok_from_res disc_spec W_reg i a (steps_of_tag (gmap_impl i) tok t) = true /\
   impl_ready i (next_reg t sreg) (next_out t sout) (fold_left (ast_step disc_spec) (steps_of_tag (gmap_impl i) tok t) a).
 Proof.
   intros [Hh [Hr Ho]] Ht.
-  assert (Eown : disc_spec (gmap_impl i GRegistry) = Owned i).
-  { rewrite gmap_impl_reg. apply disc_spec_tl; unfold GRegistry; lia. }
-  assert (Eown2 : disc_spec (gmap_impl i GDsOut) = Owned i).
-  { rewrite gmap_impl_out. apply disc_spec_tl; unfold GDsOut; lia. }
-  assert (EW : W_reg (gmap_impl i GRegistry) = true).
-  { unfold W_reg, gmap_impl, GRegistry, GParse. simpl. reflexivity. }
-  assert (EW2 : W_reg (gmap_impl i GDsOut) = true).
-  { unfold W_reg, gmap_impl, GDsOut, GParse. simpl. reflexivity. }
-  assert (Enl : locked_by disc_spec PL (gmap_impl i GRegistry) = false).
-  { unfold locked_by. rewrite Eown. reflexivity. }
-  assert (Enl2 : locked_by disc_spec PL (gmap_impl i GDsOut) = false).
-  { unfold locked_by. rewrite Eown2. reflexivity. }
+  destruct (impl_cell i GRegistry) as [Eown [EW Enl]]; [simpl; auto|].
+  destruct (impl_cell i GDsOut) as [Eown2 [EW2 Enl2]]; [simpl; auto 6|].
+  destruct (impl_cell i GVcDs) as [Eown3 [EW3 _]]; [simpl; auto|].
+  destruct (impl_cell i GVcDc) as [Eown4 [EW4 _]]; [simpl; auto|].
   destruct a as [held fresh]. simpl in Hh. subst held. simpl in Hr, Ho. unfold impl_ready.
   destruct t; unfold steps_of_tag; cbn [next_reg next_out].
   - (* TParse *) cbn -[gmap_impl]. split; [reflexivity|]. split; [reflexivity|]. split; intros Hs; apply filter_In.
@@ -501,9 +538,12 @@ Proof.
     split; [reflexivity|]. split; [reflexivity|]. split; [intros _; left; reflexivity | intros Hs; right; apply Ho; exact Hs].
   - (* TRegGet *) cbn -[gmap_impl disc_spec W_reg]. rewrite EW. unfold may_access. rewrite Eown, Nat.eqb_refl.
     pose proof (proj2 (mem_In _ _) (Hr Ht)) as Hm. unfold mem in Hm. rewrite Hm. split; [reflexivity|]. split; [reflexivity | split; assumption].
-  - (* TVcReset *) cbn. split; [reflexivity|]. split; [reflexivity|]. split; intros Hs; simpl; right; right; [apply Hr | apply Ho]; exact Hs.
-  - (* TVcDs *) cbn. split; [reflexivity|]. split; [reflexivity|]. split; intros Hs; simpl; right; [apply Hr | apply Ho]; exact Hs.
-  - (* TVcDc *) cbn. split; [reflexivity|]. split; [reflexivity|]. split; intros Hs; simpl; right; [apply Hr | apply Ho]; exact Hs.
+  - (* TVcReset *) cbn -[gmap_impl disc_spec W_reg]. rewrite EW3, EW4. unfold may_access. rewrite Eown3, Eown4, Nat.eqb_refl. simpl.
+    split; [reflexivity|]. split; [reflexivity|]. split; intros Hs; right; right; [apply Hr | apply Ho]; exact Hs.
+  - (* TVcDs *) cbn -[gmap_impl disc_spec W_reg]. rewrite EW3. unfold may_access, owned_by. rewrite Eown3, Nat.eqb_refl. simpl.
+    rewrite orb_true_r. simpl. split; [reflexivity|]. split; [reflexivity|]. split; intros Hs; right; [apply Hr | apply Ho]; exact Hs.
+  - (* TVcDc *) cbn -[gmap_impl disc_spec W_reg]. rewrite EW4. unfold may_access, owned_by. rewrite Eown4, Nat.eqb_refl. simpl.
+    rewrite orb_true_r. simpl. split; [reflexivity|]. split; [reflexivity|]. split; intros Hs; right; [apply Hr | apply Ho]; exact Hs.
   - (* TTpSet *) cbn. split; [reflexivity|]. split; [reflexivity|]. split; intros Hs; simpl; right; [apply Hr | apply Ho]; exact Hs.
   - (* TTpGet *) cbn. split; [reflexivity|]. split; [reflexivity | split; assumption].
   - (* TDsOutSet *) cbn -[gmap_impl disc_spec W_reg]. rewrite EW2. unfold may_access. rewrite Eown2, Nat.eqb_refl. simpl.
@@ -514,11 +554,18 @@ Proof.
     pose proof (proj2 (mem_In _ _) (Ho Ht)) as Hm. unfold mem in Hm. rewrite Hm. split; [reflexivity|]. split; [reflexivity | split; assumption].
 Qed.
 
+Lemma ok_from_res_app disc W i : forall p q a,
+  ok_from_res disc W i a (p ++ q) = ok_from_res disc W i a p && ok_from_res disc W i (fold_left (ast_step disc) p a) q.
+Proof.
+  induction p as [|s r IH]; intros q a; simpl; [reflexivity|].
+  rewrite IH. rewrite andb_assoc. reflexivity.
+Qed.
+
 Lemma impl_trace_ok i tok : forall tr a sreg sout, impl_ready i sreg sout a -> cells_wf sreg sout tr = true ->
-  ok_from disc_spec W_reg i a (prog_of_trace (gmap_impl i) tok tr) = true.
+  ok_from_res disc_spec W_reg i a (prog_of_trace (gmap_impl i) tok tr) = true.
 Proof.
   induction tr as [|t r IH]; intros a sreg sout Ha Hwf; [reflexivity|].
-  unfold prog_of_trace. simpl. rewrite ok_from_app.
+  unfold prog_of_trace. simpl. rewrite ok_from_res_app.
   assert (Ht : match t with TRegGet => sreg = true | TRaise => sout = true | _ => True end).
   { destruct t; auto; simpl in Hwf; apply andb_true_iff in Hwf; exact (proj1 Hwf). }
   destruct (impl_tag_ok i tok a sreg sout t Ha Ht) as [Hok1 Hrdy].
@@ -527,16 +574,25 @@ Proof.
 Qed.
 
 Lemma impl_trace_confined i tok tr : cells_wf false false tr = true ->
-  confined disc_spec W_reg i (prog_of_trace (gmap_impl i) tok tr) = true.
+  confined_res disc_spec W_reg i (prog_of_trace (gmap_impl i) tok tr) = true.
 Proof.
-  intros H. unfold confined. apply (impl_trace_ok i tok tr _ false false); [|exact H].
+  intros H. unfold confined_res. apply (impl_trace_ok i tok tr _ false false); [|exact H].
   split; [reflexivity | split; discriminate].
 Qed.
 
-(* every value written to a watched global by a skeleton is a constant token *)
+(* every value written to a watched global by a skeleton is a constant token or the increment of the call's own last read *)
+Lemma incr_wobs W g o : W g = true -> incr g o = incr g (wobs W o).
+Proof.
+  intros Wg. induction o as [|[g' v] r IH]; [reflexivity|]. simpl. unfold wobs in *. simpl.
+  destruct (Nat.eqb g' g) eqn:E.
+  - apply Nat.eqb_eq in E. subst g'. rewrite Wg. simpl. rewrite Nat.eqb_refl. reflexivity.
+  - destruct (W g'); simpl; [rewrite E|]; exact IH.
+Qed.
+
 Lemma impl_trace_writes i tok tr : Forall (write_ok W_reg) (prog_of_trace (gmap_impl i) tok tr).
 Proof.
   unfold prog_of_trace. induction tr as [|t r IH]; simpl; [constructor|].
   apply Forall_app. split; [|exact IH].
-  destruct t; unfold steps_of_tag; repeat constructor; simpl; try (intros; reflexivity); try discriminate.
+  destruct t; unfold steps_of_tag; repeat constructor; simpl; try (intros; reflexivity); try discriminate;
+    intros Wg o o' H; rewrite (incr_wobs W_reg _ o Wg), (incr_wobs W_reg _ o' Wg), H; reflexivity.
 Qed.
